@@ -262,9 +262,11 @@ Definition param_class (keep_sentence : bool) (name : str) (g : gparam) : option
     else if starts_optional d then Some K01_prose_optional
     else if negb (no_announce d) then Some K01_prose_announces
     else if endswith (L "kwargs") name then
-      (* canonical shape: a type other than dict, a None-like default (no sentence is written) *)
+      (* canonical shape: a type other than dict, default None or NoneStr (no sentence is written) *)
       match typ, dflt with
-      | Some t, Some (DV v) => if none_like v && negb (str_eqb t (L "dict")) then None else Some K01_kwargs_shape
+      | Some t, Some (DV v) =>
+        if (pyval_eqb v VNone || pyval_eqb v (VStr NoneStr)) && negb (str_eqb t (L "dict"))
+        then None else Some K01_kwargs_shape
       | _, _ => Some K01_kwargs_shape
       end
     else
